@@ -195,35 +195,62 @@ def run_S2(chk):
                 f"remove_leg(): total charge evaluates to [{got}], the algebra dictates [{want}] (n(a) - s_leg*t_leg)")
     chk.verdict("S2", (f, s[0][0]), "remove_leg: signature of the removed leg", True if sg[0] == "sig<a.struct.s[haxis]>" else False,
                 f"remove_leg(): the signature used is `{sg[0]}`, not that of the removed native leg a.struct.s[haxis]")
-    # factorisations
-    f = prog.func(LIN, "_meta_svd")
-    un = [n for n in A.walk_local(f.node) if isinstance(n, ast.Assign) and A.text(n.targets[0]) == "(Un, Vn)"]
-    chk.require(un, "_meta_svd: `Un, Vn = ...` not found")
-    v = un[0].value
-    ok = isinstance(v, ast.IfExp) and A.text(v.test) == "nU" and A.text(v.body) == "(struct.n, n0)" and A.text(v.orelse) == "(n0, struct.n)"
-    n0 = [n for n in A.walk_local(f.node) if isinstance(n, ast.Assign) and A.text(n.targets[0]) == "n0"]
-    ok = ok and n0 and A.text(n0[0].value) == "config.sym.zero()"
-    chk.verdict("S2", (f, un[0]), un[0], True if ok else False,
-                "_meta_svd: the charge must be carried by U when nU is true and by V otherwise (the other factor neutral)")
-    sites = {A.text(c.args[0]) if c.args else A.text(A.kwarg(c, "s")): (c, n) for c, n in struct_sites(f.node)}
-    want_n = {"Ustruct": "Un", "Sstruct": "n0", "Vstruct": "Vn"}
-    for nm, wn in want_n.items():
-        d = [n for n in A.walk_local(f.node) if isinstance(n, ast.Assign) and A.text(n.targets[0]) == nm and isinstance(n.value, ast.Call)]
-        chk.require(d, f"_meta_svd: {nm} not found")
-        got = A.text(_kw_n(d[-1].value)) if _kw_n(d[-1].value) is not None else None
-        chk.verdict("S2", (f, d[-1]), f"_meta_svd: {nm}.n = {got}", True if got == wn else False,
-                    f"_meta_svd: {nm} carries charge `{got}` instead of `{wn}`")
-    f = prog.func(LIN, "_meta_qr")
-    q = [n for n in A.walk_local(f.node) if isinstance(n, ast.Assign) and A.text(n.targets[0]) == "Qstruct"]
-    r = [n for n in A.walk_local(f.node) if isinstance(n, ast.Assign) and A.text(n.targets[0]) == "Rstruct"]
-    chk.require(q and r, "_meta_qr: Qstruct/Rstruct not found")
-    okq = A.text(q[0].value.func) == "struct._replace" and _kw_n(q[0].value) is None
-    okr = _kw_n(r[0].value) is not None and A.text(_kw_n(r[0].value)) == "n0"
-    chk.verdict("S2", (f, q[0]), "_meta_qr: Q keeps n(struct)", True if okq else False, "_meta_qr: Q does not inherit the tensor's charge")
-    chk.verdict("S2", (f, r[0]), "_meta_qr: R is neutral", True if okr else False, "_meta_qr: R is not charge-neutral")
-    f = prog.func(LIN, "_meta_eigh")
-    for c, n in struct_sites(f.node):
-        chk.verdict("S2", (f, c), f"_meta_eigh: n = {A.text(n)}", True if A.text(n) == "n0" else False, "_meta_eigh: factors of a neutral tensor must be neutral")
+    # factorisations: total charge of every struct returned by the meta functions, identified by its position in the returned
+    # tuple and evaluated separately for each value of the boolean knob (independent of if/else vs conditional expression,
+    # of temporaries and of local names)
+    ZERO = "<zero>"
+
+    def returned_charges(f, assume):
+        from ..core.knob import KnobEval
+        ke = KnobEval(f.node, assume)
+        rets = [r for r in A.returns_of(f.node) if r.value is not None and ke.is_live(r)]
+        chk.require(len(rets) == 1 and isinstance(rets[0].value, ast.Tuple), f"{f.name}: single tuple return expected")
+        out = []
+        for e in rets[0].value.elts:
+            vs = ke.values(e.id, rets[0]) if isinstance(e, ast.Name) else [e]
+            if len(vs) != 1 or not isinstance(vs[0], ast.Call):
+                continue
+            c = vs[0]
+            is_new = A.call_name(c) == "_struct"
+            is_rep = isinstance(c.func, ast.Attribute) and c.func.attr == "_replace"
+            if not (is_new or is_rep):
+                continue
+            n = _kw_n(c)
+            if n is None:
+                if is_new:
+                    out.append((c, "?"))
+                    continue
+                # inherits the charge of the struct it was derived from (possibly through earlier _replace without n)
+                recv = c.func.value
+                seen = 0
+                while isinstance(recv, ast.Name) and seen < 4:
+                    vv = [v for v in ke.values(recv.id, c) if v is not None]
+                    nxt = None
+                    for v in vv:
+                        if isinstance(v, ast.Call) and isinstance(v.func, ast.Attribute) and v.func.attr == "_replace" and _kw_n(v) is None:
+                            nxt = v.func.value
+                        else:
+                            nxt = "stop"
+                    if nxt is None or nxt == "stop" or A.text(nxt) == recv.id:
+                        break
+                    recv = nxt
+                    seen += 1
+                out.append((c, A.text(recv) + ".n"))
+            else:
+                t = ke.text(n, c)
+                out.append((c, ZERO if t.endswith(".sym.zero()") else t))
+        return out
+    for name, assume, want, why in (
+            ("_meta_svd", {"nU": True}, ["struct.n", ZERO, ZERO], "with nU=True the charge of the tensor is carried by U; S and V are neutral"),
+            ("_meta_svd", {"nU": False}, [ZERO, ZERO, "struct.n"], "with nU=False the charge of the tensor is carried by V; U and S are neutral"),
+            ("_meta_qr", {}, ["struct.n", ZERO], "Q inherits the charge of the tensor, R is neutral"),
+            ("_meta_eigh", {}, [ZERO, ZERO], "factors of a (necessarily neutral) Hermitian tensor are neutral")):
+        f = prog.func(LIN, name)
+        got = returned_charges(f, assume)
+        chk.require(len(got) == len(want), f"{name}: {len(got)} struct-valued return elements found, {len(want)} expected")
+        for k, ((c, g), w) in enumerate(zip(got, want)):
+            chk.verdict("S2", (f, c), f"{name}{assume or ''}: charge of returned struct #{k + 1} = {g}", True if g == w else False,
+                        f"{name}(): {why}; returned struct #{k + 1} carries `{g}` instead of `{w}`")
     # guards on operands' charges
     for mod, name, frag, what in ((LIN, "eigh", "x == 0 for x in a.struct.n", "eigh requires zero charge"),
                                   (SING, "diag", "x != 0 for x in a.struct.n", "diagonal tensors are neutral"),
